@@ -599,7 +599,7 @@ def badwell_programs(dev):
     """Well ids that do not exist in the labware (out of range or malformed) through every record emitting operation (C08)."""
     progs = []
     P, T, Sx = 0, 1, 2
-    bad_plate = [(3, 0), (0, 4), (25, 0), (30, 1), "A1", "A001x", "AA01", "a01", "01A", "", "A-1", "Ä01", "A 01", "A00", "C0", "B000", "A011", "A01x", "B0100", "C04 "]
+    bad_plate = [(3, 0), (0, 4), (25, 0), (30, 1), "A1", "A001x", "AA01", "a01", "01A", "", "A-1", "Ä01", "A 01", "A00", "C0", "B000", "A011", "A01x", "B0100", "C04 ", " A01", "B02\n", "\tA01", "AB01"]
     bad_trough = [(4, 0), (0, 3), "A1", "E01", "column_01", "A00", "D0"]
     k = 0
     for w in bad_plate:
